@@ -120,3 +120,10 @@ def c17_evidence_on_interface(stream, case, detail):
 def c17_multi_slice_query(stream, case, detail):
     """query variables in two or more different time slices (filtering and smoothing)"""
     return stream == "query" and _c17_parts(case)[3]
+
+
+# ----------------------------------------------------------------------------- C19
+def c19_pearsonr_no_intercept(stream, case, detail):
+    """pearsonr(X, Y, Z) regresses X and Y on Z without an intercept: with a non-empty Z the result is not the Pearson
+    test on (intercept) regression residuals and changes when any variable is shifted"""
+    return stream == "pearsonr" and case.get("nz", 0) > 0 and isinstance(detail, dict) and detail.get("kind") in ("reference", "affine")
